@@ -10,15 +10,20 @@ PROP = {'streams': [('c05', 4000, 250000)],
          't (accept and reject), Print_model e ~ lex(print_impl e), parse_impl(render(Print_model e)) = e via the driver sub-process, unescape_model '
          '= to_unescaped_string / like-pattern; non-trivial = accepted expression with >= 3 sub-expressions or an accepted policy (distinct by '
          'canonical AST) or a distinct raw literal',
- 'theorems': ['unescape_escape', 'unescape_escape_pattern', 'parse_print_partial'],
+ 'theorems': ['unescape_escape', 'unescape_escape_pattern', 'parse_print_full', 'parse_image', 'parse_print_parse', 'round_trip_meaning', 'round_trip_meaning_text', 'parse_print_partial3',
+              'parse_print_partial', 'inFrag3_parserImage', 'parserImage_inFrag3', 'inFrag2_inFrag3'],
  'assumptions': ['the harness tokenizer (token classes of grammar.lalrpop) is trusted',
                  "escape_debug's Unicode tables are not modelled: the theorems quantify over an arbitrary mustEscape predicate",
                  'the LALRPOP-generated tables are tied to the model parser by the (parse ...) correspondence lines, accepts and rejects']}
 
 TEXT = ('Lean theorems over a token-level model of the printer (mirror of est/expr.rs Display / maybe_with_parens) and of the parser (recursive descent for '
  "grammar.lalrpop composed with the cst_to_ast lowerings): unescape(escape s) = s for strings and patterns for every choice of escape_debug's "
- 'tables; Parse(Print e) = e on a stated fragment (parse_print_partial, full statement kept as a def). Tied to the code by cross-composition runs '
+ 'tables; the full expression-level statement parse_print_full: Parse(Print e) = e for EVERY AST in the parser image (literals incl. entity '
+ 'uids, slots, member access, like, is, method and extension calls, sets, records, all operators and unparenthesised chains); parse_image: on '
+ 'well-formed tokens the parser only returns ASTs of that image; parse_print_parse: every accepted token list re-parses to the same AST after '
+ 'printing (includes a proof of intercalate/splitOn inverse laws for the legacy byte-position String.splitOn). '
+ 'Tied to the code by cross-composition runs '
  "(model parser on the real printer's output and on arbitrary generated texts incl. rejects, real parser on the model printer's output) and the "
  'statement itself checked on the implementation for expressions, policies, templates and policy sets with evaluation on random requests.',
- 'proof over a hand-written model; parse_print proved for a fragment only; correspondence sampled + an exhaustive operator-pair grid; the harness '
+ 'proof over a hand-written model (expression level complete; policies/templates/annotations and the lexer are covered by runs only); correspondence sampled + an exhaustive operator-pair grid; the harness '
  'tokenizer is trusted')
